@@ -305,31 +305,36 @@ def peat_tables(prop, label, p, chunks=8, timeout=900):
     eps = max(max(hi[j] - mids[j], mids[j] - lo[j]) for j in range(201)) * Fraction(1001, 1000)
     tmid = {k: _round_grid((tlo[k] + thi[k]) / 2) for k in ks}
     eta = max(max(thi[k] - tmid[k], tmid[k] - tlo[k]) for k in ks) * Fraction(1001, 1000) + Fraction(1, 10 ** 30)
-    lines = [head, 'Require Import %s.' % ' '.join(names)]
-    lines.append('Definition PhiT (j : Z) : R :=\n  match j with\n'
-                 + '\n'.join('  | %s => %s' % (_zlit(j), cR(mids[j])) for j in range(201))
-                 + '\n  | _ => 0\n  end.')
-    lines.append('Definition ThT (k : Z) : R :=\n  match k with\n'
-                 + '\n'.join('  | %s => %s' % (_zlit(k), cR(tmid[k])) for k in ks)
-                 + '\n  | _ => 0\n  end.')
-    lines.append('Definition eps : R := %s.\nDefinition eta : R := %s.\nDefinition M : R := 1000000001 / 1000000000.'
-                 % (cR(eps), cR(eta)))
-    lines.append('Lemma phi_both : forall j, In j (layers 201) -> Rabs (Fs P j - PhiT j) <= eps /\\ Rabs (1 - PhiT j) <= M.')
-    lines.append('Proof.\n  intros j Hj. cbv beta iota delta [layers seq map Z.of_nat Pos.of_succ_nat Pos.succ] in Hj.')
+    lines = [head, 'Require Import %s.' % ' '.join(names), 'From Coq Require Import QArith Qreals.',
+             'Open Scope R_scope.']
+    lines.append('Definition PhiQ (j : Z) : Q :=\n  match j with\n'
+                 + '\n'.join('  | %s => %s' % (_zlit(j), C.cQ(mids[j])) for j in range(201))
+                 + '\n  | _ => 0%Q\n  end.')
+    lines.append('Definition ThQ (k : Z) : Q :=\n  match k with\n'
+                 + '\n'.join('  | %s => %s' % (_zlit(k), C.cQ(tmid[k])) for k in ks)
+                 + '\n  | _ => 0%Q\n  end.')
+    lines.append('Definition epsQ : Q := %s.\nDefinition etaQ : Q := %s.\nDefinition MQ : Q := (1000000001 # 1000000000)%%Q.\n'
+                 'Definition thsQ : Q := %s.' % (C.cQ(eps), C.cQ(eta), C.cQ(ths)))
+    lines.append('Ltac qb H := q_unfold PhiQ ThQ epsQ etaQ MQ; repeat split; apply Rabs_le; generalize H; lra.')
+    lines.append('Lemma phi_F : Forall (fun j => Rabs (Fs P j - Q2R (PhiQ j)) <= Q2R epsQ /\\ '
+                 'Rabs (1 - Q2R (PhiQ j)) <= Q2R MQ) (layers 201).')
+    lines.append('Proof.\n  cbv beta iota delta [layers seq map Z.of_nat Pos.of_succ_nat Pos.succ].')
     for j in range(201):
-        lines.append('  destruct Hj as [<-|Hj]; [cbv beta iota delta [PhiT eps M]; split; apply Rabs_le; '
-                     'generalize phi_%d; lra|].' % j)
-    lines.append('  destruct Hj.\nQed.')
-    lines.append('Lemma phi_all : forall j, In j (layers 201) -> Rabs (Fs P j - PhiT j) <= eps.\n'
-                 'Proof. intros j Hj. apply (phi_both j Hj). Qed.')
-    lines.append('Lemma phi_range : forall j, In j (layers 201) -> Rabs (1 - PhiT j) <= M.\n'
-                 'Proof. intros j Hj. apply (phi_both j Hj). Qed.')
-    lines.append('Lemma theta_all : forall k, In k (offsets 201) -> Rabs (theta_at P k - ThT k) <= eta.')
-    lines.append('Proof.\n  intros k Hk. cbv in Hk.')
+        lines.append('  apply Forall_cons; [qb phi_%d|].' % j)
+    lines.append('  apply Forall_nil.\nQed.')
+    lines.append('Lemma phi_all : forall j, In j (layers 201) -> Rabs (Fs P j - Q2R (PhiQ j)) <= Q2R epsQ.\n'
+                 'Proof. intros j Hj. exact (proj1 (proj1 (Forall_forall _ _) phi_F j Hj)). Qed.')
+    lines.append('Lemma phi_range : forall j, In j (layers 201) -> Rabs (1 - Q2R (PhiQ j)) <= Q2R MQ.\n'
+                 'Proof. intros j Hj. exact (proj2 (proj1 (Forall_forall _ _) phi_F j Hj)). Qed.')
+    lines.append('Lemma theta_F : Forall (fun k => Rabs (theta_at P k - Q2R (ThQ k)) <= Q2R etaQ) (offsets 201).')
+    lines.append('Proof.\n  cbv beta iota delta [offsets seq map Z.of_nat Pos.of_succ_nat Pos.succ Nat.mul Nat.add Z.sub Z.add '
+                 'Z.opp Z.pos_sub Z.succ_double Z.pred_double Z.double Pos.pred_double Pos.add Pos.add_carry].')
     for k in ks:
-        lines.append('  destruct Hk as [<-|Hk]; [cbv beta iota delta [ThT eta]; apply Rabs_le; generalize th_%s; lra|].'
-                     % (('m%d' % -k) if k < 0 else str(k)))
-    lines.append('  destruct Hk.\nQed.')
+        lines.append('  apply Forall_cons; [qb th_%s|].' % (('m%d' % -k) if k < 0 else str(k)))
+    lines.append('  apply Forall_nil.\nQed.')
+    lines.append('Lemma theta_all : forall k, In k (offsets 201) -> Rabs (theta_at P k - Q2R (ThQ k)) <= Q2R etaQ.\n'
+                 'Proof. intros k Hk. exact (proj1 (Forall_forall _ _) theta_F k Hk). Qed.')
+    lines.append('Lemma ths_ok : theta_s P = Q2R thsQ.\nProof. cbv beta iota delta [theta_s thsQ Q2R Qnum Qden]. field. Qed.')
     lines.append('Lemma adm_P : admissible P.\nProof. admissible_eval. Qed.')
     tab = os.path.join(d, 'Tab.v')
     with open(tab, 'w') as f:
